@@ -39,6 +39,10 @@ OBLIGATIONS = [
     "C12_scalar_noise_shape_refuted", "C12_float64_refuted",
     # composition with C01 (coq/theories/Compose/): the store hypotheses discharged on the real State model
     "C12_store_interface_discharged", "C12_self_consistent_state", "C12_self_consistent_reachable", "C12_state_example",
+    # histories on one model object (Io/History.v, Compose/StateHistory.v): any sequence of load_parameters / fit
+    "C12_tie_load_parameters", "C12_load_parameters_self_consistent", "C12_history_self_consistent", "C12_history_independent",
+    "C12_history_self_consistent_reachable", "C12_history_last_load_params_state", "C12_history_vs_fresh_reachable",
+    "C12_guarded_reset_refuted", "C12_history_example",
 ]
 
 SCRATCH = Path(f"/tmp/scratch/c12-check-{os.getpid()}/run")
@@ -589,6 +593,86 @@ def float_roundtrip(run: Run, thorough: bool):
 # ----------------------------------------------------------------------------- end-of-fit statements (structural translation)
 
 
+def translate_load_parameters() -> list[str]:
+    """The statements of StatefulModel.load_parameters (models/stateful.py) as a list of `lp_op` (Io/History.v).  Every
+    statement must be one of the recognised forms; a guard `if not self._state.are_variables_set(self.population_variables_names)`
+    around ONE recognised statement is translated (LpIfPopsUnset), anything else raises ValueError (fail closed)."""
+    import ast
+    tree = ast.parse((SRC / "models" / "stateful.py").read_text())
+    cls = [n for n in tree.body if isinstance(n, ast.ClassDef) and n.name == "StatefulModel"]
+    if len(cls) != 1:
+        raise ValueError("class StatefulModel not found in models/stateful.py")
+    fns = [n for n in cls[0].body if isinstance(n, ast.FunctionDef) and n.name == "load_parameters"]
+    if len(fns) != 1:
+        raise ValueError("StatefulModel.load_parameters not found")
+    fn = fns[0]
+    if [a.arg for a in fn.args.args] != ["self", "parameters"] or fn.decorator_list:
+        raise ValueError("load_parameters: unexpected signature / decorators")
+
+    def writes_state(node) -> bool:
+        for n in ast.walk(node):
+            if isinstance(n, (ast.Assign, ast.AugAssign, ast.AnnAssign, ast.Delete)):
+                tg = n.targets if isinstance(n, (ast.Assign, ast.Delete)) else [n.target]
+                if any("self._state" in ast.unparse(t) or ast.unparse(t).startswith("self.") for t in tg):
+                    return True
+            if isinstance(n, ast.Call) and ast.unparse(n.func).startswith(("self._state.", "self.state.")):
+                return True
+            if isinstance(n, ast.Call) and ast.unparse(n.func) in ("setattr", "self._initialize_state", "self.load_parameters"):
+                return True
+        return False
+
+    def one(s):
+        """op for one statement; None for a pure helper binding"""
+        src = ast.unparse(s)
+        if isinstance(s, ast.Expr) and isinstance(s.value, ast.Constant):
+            return None
+        if isinstance(s, ast.ImportFrom) and src == "from .utilities import val_to_tensor":
+            return None
+        if isinstance(s, ast.If) and not s.orelse and len(s.body) == 1:
+            test, body = ast.unparse(s.test), ast.unparse(s.body[0])
+            if test == "self._state is None" and body == "self._initialize_state()":
+                return "LpInitState"
+            if test == "len(missing_params)" and isinstance(s.body[0], ast.Expr) and body.startswith("warnings.warn("):
+                return "LpWarnMissing"
+            if test == "len(extra_vars)" and isinstance(s.body[0], ast.Raise) and body.startswith("raise LeaspyModelInputError("):
+                return "LpRefuseUnknown"
+            if test == "not self._state.are_variables_set(self.population_variables_names)":
+                inner = one(s.body[0])
+                if inner is None:
+                    raise ValueError(f"load_parameters: guard around a helper statement: {src[:120]}")
+                return f"(LpIfPopsUnset {inner})"
+            raise ValueError(f"load_parameters: unexpected conditional: {src[:160]}")
+        if isinstance(s, ast.Assign):
+            if src in ("params_names = self.parameters_names", "missing_params = set(params_names).difference(parameters)",
+                       "extra_vars = set(parameters).difference(self.dag)"):
+                return None
+            if src == ("provided_params = {p: val_to_tensor(parameters[p], self.dag[p].shape) for p in params_names "
+                       "if p in parameters}"):
+                return "LpReshape"
+            raise ValueError(f"load_parameters: unexpected assignment: {src[:160]}")
+        if isinstance(s, ast.For) and not s.orelse:
+            head = (ast.unparse(s.target), ast.unparse(s.iter))
+            if head == ("(p, val)", "provided_params.items()") and [ast.unparse(t) for t in s.body] == ["self._state[p] = val"]:
+                return "LpAssignParams"
+            if head == ("(parameter_name, parameter_value)", "parameters.items()"):
+                if any(writes_state(t) for t in s.body):
+                    raise ValueError("load_parameters: the comparison loop writes to the state")
+                if "self._state[parameter_name]" not in ast.unparse(s):
+                    raise ValueError("load_parameters: the comparison loop no longer reads self._state[parameter_name]")
+                return "LpCompareDerived"
+            raise ValueError(f"load_parameters: unexpected loop: {src[:160]}")
+        if isinstance(s, ast.Expr):
+            for meth, lit in (("PRIOR_MODE", "InitMode"), ("PRIOR_MEAN", "InitMean")):
+                if src == f"self._state.put_population_latent_variables(LatentVariableInitType.{meth})":
+                    return f"(LpPutPop {lit})"
+        raise ValueError(f"load_parameters: unexpected statement: {src[:160]}")
+
+    ops = [o for o in (one(s) for s in fn.body) if o is not None]
+    if not ops:
+        raise ValueError("load_parameters: empty body")
+    return ops
+
+
 def translate(run: Run) -> bool:
     """Regenerate coq/gen/GenC12.v: the statements of TensorMcmcSaemAlgorithm._run after the iteration loop, as a list of
     store operations, and the PRIOR_MODE routing of put_population_latent_variables / _get_init_func_generic.  Fail closed."""
@@ -655,14 +739,18 @@ def translate(run: Run) -> bool:
         if set(route) != {"PRIOR_MODE", "PRIOR_MEAN"}:
             raise ValueError("_get_init_func_generic: PRIOR_MODE / PRIOR_MEAN routing not recognised")
         cap = {"mode": "UseMode", "mean": "UseMean"}
+        lp_ops = translate_load_parameters()
         text = ("(* REGENERATED on every run from $VERIF_REPO/src/leaspy by harness/props/c12.py — do not edit *)\n"
                 "From Coq Require Import List. Import ListNotations.\nFrom Leaspy Require Import Io.EndOfFit.\n"
                 f"Definition gen_end_of_fit : list fit_op := [{'; '.join(ops)}].\n"
                 f"Definition gen_init_route (i : init_type) : prior_stat := match i with InitMode => {cap[route['PRIOR_MODE']]} "
-                f"| InitMean => {cap[route['PRIOR_MEAN']]} end.\n")
+                f"| InitMean => {cap[route['PRIOR_MEAN']]} end.\n"
+                "From Leaspy Require Import Io.History.\n"
+                f"Definition gen_load_parameters : list lp_op := [{'; '.join(lp_ops)}].\n")
         run.gen("GenC12", text)
         run.trusted.append("structural translator in harness/props/c12.py (python ast -> op list for the tail of "
-                           "TensorMcmcSaemAlgorithm._run, put_population_latent_variables, _get_init_func_generic)")
+                           "TensorMcmcSaemAlgorithm._run, StatefulModel.load_parameters, put_population_latent_variables, "
+                           "_get_init_func_generic)")
         return True
     except (ValueError, IndexError, KeyError, OSError, SyntaxError) as e:
         run.broken("translate:GenC12", f"{type(e).__name__}: {e}", kind="broken-translation")
